@@ -209,7 +209,9 @@ func c01Property(t *rapid.T) {
 				b = g.genBlock(8)
 			}
 		} else {
-			switch rapid.IntRange(0, 5).Draw(t, "episode") {
+			switch rapid.IntRange(0, 6).Draw(t, "episode") {
+			case 6:
+				b = g.genTimeoutBurst()
 			case 0:
 				ep := g.genGroupEpisode()
 				b, queue = ep[0], ep[1:]
@@ -396,6 +398,9 @@ func c01Property(t *rapid.T) {
 	}
 	if pipelinedBursts > 0 {
 		classes = append(classes, "replica-pipelined-bursts")
+	}
+	if g.kinds["timeout-burst"] > 0 {
+		classes = append(classes, "requests-sharing-one-timeout-height")
 	}
 	if g.kinds["xvm-episode"] > 0 {
 		classes = append(classes, "xvm-invocations-across-restarts")
